@@ -345,6 +345,561 @@ theorem foldDag_spec (t : Tag) (A : Alg (U t)) : ∀ (s : Store) (r : Ref) (σ :
           rw [reaches_cons_ne n rest h hi] at hj
           exact f1 j hj
 
+/-! ## the short-circuiting walks -/
+
+/-- `clear_scratch` and `count_h` are the same walk: enter a node iff `visit cell`, overwrite
+the cell with `mark`, then both children through the raw edges. -/
+def dfs (visit : Cell U → Bool) (mark : Cell U) : Store → Ref → Scr U × Nat → Scr U × Nat
+  | [], _, st => st
+  | n :: rest, r, st =>
+    match r.idx? with
+    | none => st
+    | some i =>
+      if i = rest.length then
+        if visit (st.1 i) then
+          dfs visit mark rest n.hi (dfs visit mark rest n.lo (st.1.set i mark, st.2 + 1))
+        else st
+      else dfs visit mark rest r st
+
+theorem clearScratch_eq_dfs : ∀ (s : Store) (r : Ref) (σ : Scr U) (c : Nat),
+    clearScratch s r σ = (dfs Cell.isSome .empty s r (σ, c)).1
+  | [], _, _, _ => rfl
+  | n :: rest, r, σ, c => by
+    simp only [clearScratch, dfs]
+    cases r.idx? with
+    | none => rfl
+    | some i =>
+      simp only
+      split
+      · split
+        · rw [clearScratch_eq_dfs rest n.hi _ (dfs Cell.isSome .empty rest n.lo (σ.set i .empty, c + 1)).2,
+            clearScratch_eq_dfs rest n.lo _ (c + 1)]
+        · rfl
+      · exact clearScratch_eq_dfs rest r σ c
+
+theorem countH_eq_dfs : ∀ (s : Store) (r : Ref) (st : Scr U × Nat),
+    countH s r st = dfs (fun c => c.asCount.isNone) (.count 0) s r st
+  | [], _, _ => rfl
+  | n :: rest, r, st => by
+    simp only [countH, dfs]
+    cases r.idx? with
+    | none => rfl
+    | some i =>
+      simp only
+      split
+      · rw [← countH_eq_dfs rest n.lo, ← countH_eq_dfs rest n.hi]
+        split
+        · rename_i hh; simp [hh]
+        · rename_i hh; simp [hh]
+      · exact countH_eq_dfs rest r st
+
+theorem countP_add3 {p q1 q2 q3 : Nat → Bool} : ∀ (l : List Nat),
+    (∀ j ∈ l, (p j).toNat = (q1 j).toNat + (q2 j).toNat + (q3 j).toNat) →
+    l.countP p = l.countP q1 + l.countP q2 + l.countP q3
+  | [], _ => rfl
+  | x :: l, h => by
+    have ih := countP_add3 l (fun j hj => h j (List.mem_cons_of_mem _ hj))
+    have hx := h x (List.mem_cons_self ..)
+    simp only [List.countP_cons, ih]
+    cases hp : p x <;> cases h1 : q1 x <;> cases h2 : q2 x <;> cases h3 : q3 x <;>
+      simp_all <;> omega
+
+theorem countP_beq_range (i : Nat) : ∀ N, (List.range N).countP (fun j => j == i) = if i < N then 1 else 0
+  | 0 => by simp
+  | N + 1 => by
+    rw [List.range_succ, List.countP_append, countP_beq_range i N]
+    by_cases h1 : i < N
+    · have : ¬ N = i := by omega
+      simp [h1, this]; omega
+    · by_cases h2 : N = i
+      · subst h2; simp
+      · have : ¬ i < N + 1 := by omega
+        simp [h1, h2, this]
+
+/-- The walk, exactly: under the closure condition ("below a node that is not entered nothing
+would be entered"), it overwrites precisely the reachable cells that satisfy `visit`, and counts
+them. -/
+theorem dfs_spec (visit : Cell U → Bool) (mark : Cell U) (hm : visit mark = false) (N : Nat) :
+    ∀ (s : Store) (r : Ref) (σ : Scr U) (c : Nat), s.length ≤ N →
+    (∀ j, reaches s r j = true → visit (σ j) = false →
+      ∀ k, reaches s (.reg j) k = true → visit (σ k) = false) →
+    dfs visit mark s r (σ, c) =
+      (fun j => if reaches s r j && visit (σ j) then mark else σ j,
+       c + (List.range N).countP (fun j => reaches s r j && visit (σ j)))
+  | [], r, σ, c, _, _ => by simp [dfs, reaches]
+  | n :: rest, r, σ, c, hN, hcl => by
+    simp only [List.length_cons] at hN
+    cases h : r.idx? with
+    | none => simp [dfs, h, reaches_none _ h]
+    | some i =>
+      by_cases hi : i = rest.length
+      · subst hi
+        have hreach : ∀ j, reaches (n :: rest) r j =
+            (j == rest.length || reaches rest n.lo j || reaches rest n.hi j) := reaches_cons_eq n rest h
+        simp only [dfs, h, if_true]
+        cases hv : visit (σ rest.length) with
+        | false =>
+          have hall : ∀ j, (reaches (n :: rest) r j && visit (σ j)) = false := by
+            intro j
+            cases hj : reaches (n :: rest) r j with
+            | false => rfl
+            | true =>
+              simp only [Bool.true_and]
+              refine hcl _ (reaches_self n rest h) hv j ?_
+              rw [← hj]; exact reaches_congr (by rw [h]; rfl) _ _
+          simp [hall]
+        | true =>
+          simp only [if_true]
+          -- first child
+          have cl1 : ∀ j, reaches rest n.lo j = true → visit ((σ.set rest.length mark) j) = false →
+              ∀ k, reaches rest (.reg j) k = true → visit ((σ.set rest.length mark) k) = false := by
+            intro j hj hvj k hk
+            have hjl := reaches_lt _ _ _ hj
+            have hkl := reaches_lt _ _ _ hk
+            rw [Scr.set_other _ _ (by omega)] at hvj ⊢
+            refine hcl j (by rw [hreach]; simp [hj]) hvj k ?_
+            rw [reaches_cons_ne n rest (r := .reg j) rfl (by omega)]; exact hk
+          rw [dfs_spec visit mark hm N rest n.lo _ (c + 1) (by omega) cl1]
+          -- second child
+          have cl2 : ∀ j, reaches rest n.hi j = true →
+              visit ((fun j => if reaches rest n.lo j && visit ((σ.set rest.length mark) j) then mark
+                else (σ.set rest.length mark) j) j) = false →
+              ∀ k, reaches rest (.reg j) k = true →
+              visit ((fun j => if reaches rest n.lo j && visit ((σ.set rest.length mark) j) then mark
+                else (σ.set rest.length mark) j) k) = false := by
+            intro j hj hvj k hk
+            have hjl := reaches_lt _ _ _ hj
+            have hkl := reaches_lt _ _ _ hk
+            simp only [Scr.set_other σ mark (show j ≠ rest.length by omega),
+              Scr.set_other σ mark (show k ≠ rest.length by omega)] at hvj ⊢
+            cases hkv : visit (σ k) with
+            | false => split <;> simp [hm, hkv]
+            | true =>
+              cases hkr : reaches rest n.lo k with
+              | true => simp [hm]
+              | false =>
+                exfalso
+                cases hjr : reaches rest n.lo j with
+                | true =>
+                  have := reaches_trans rest n.lo j k hjr hk
+                  rw [hkr] at this; cases this
+                | false =>
+                  simp only [hjr, Bool.false_and] at hvj
+                  have := hcl j (by rw [hreach]; simp [hj]) (by simpa using hvj) k (by
+                    rw [reaches_cons_ne n rest (r := .reg j) rfl (by omega)]; exact hk)
+                  rw [hkv] at this; cases this
+          rw [dfs_spec visit mark hm N rest n.hi _ _ (by omega) cl2]
+          refine Prod.ext ?_ ?_
+          · funext j
+            simp only [hreach]
+            by_cases hji : j = rest.length
+            · subst hji
+              have h1 : reaches rest n.lo rest.length = false := by
+                cases hh : reaches rest n.lo rest.length with
+                | false => rfl
+                | true => have := reaches_lt _ _ _ hh; omega
+              have h2 : reaches rest n.hi rest.length = false := by
+                cases hh : reaches rest n.hi rest.length with
+                | false => rfl
+                | true => have := reaches_lt _ _ _ hh; omega
+              simp [h1, h2, hv]
+            · simp only [Scr.set_other σ mark hji]
+              have : (j == rest.length) = false := by simp [hji]
+              rw [this]
+              cases reaches rest n.lo j <;> cases reaches rest n.hi j <;> cases hvj : visit (σ j) <;>
+                simp [hm, hvj]
+          · simp only
+            rw [countP_add3 (p := fun j => reaches (n :: rest) r j && visit (σ j))
+              (q1 := fun j => j == rest.length)
+              (q2 := fun j => reaches rest n.lo j && visit ((σ.set rest.length mark) j))
+              (q3 := fun j => reaches rest n.hi j && visit (
+                if reaches rest n.lo j && visit ((σ.set rest.length mark) j) then mark
+                else (σ.set rest.length mark) j)) (List.range N)]
+            · rw [countP_beq_range, if_pos (by omega)]; omega
+            · intro j _
+              simp only [hreach]
+              by_cases hji : j = rest.length
+              · subst hji
+                have h1 : reaches rest n.lo rest.length = false := by
+                  cases hh : reaches rest n.lo rest.length with
+                  | false => rfl
+                  | true => have := reaches_lt _ _ _ hh; omega
+                have h2 : reaches rest n.hi rest.length = false := by
+                  cases hh : reaches rest n.hi rest.length with
+                  | false => rfl
+                  | true => have := reaches_lt _ _ _ hh; omega
+                simp [h1, h2, hv]
+              · simp only [Scr.set_other σ mark hji]
+                have : (j == rest.length) = false := by simp [hji]
+                rw [this]
+                cases reaches rest n.lo j <;> cases reaches rest n.hi j <;> cases hvj : visit (σ j) <;>
+                  simp [hm, hvj]
+      · simp only [dfs, h, hi, if_false]
+        rw [dfs_spec visit mark hm N rest r σ c (by omega) (by
+          intro j hj hvj k hk
+          have hjl := reaches_lt _ _ _ hj
+          refine hcl j (by rw [reaches_cons_ne n rest h hi]; exact hj) hvj k ?_
+          rw [reaches_cons_ne n rest (r := .reg j) rfl (by omega)]; exact hk)]
+        simp only [reaches_cons_ne n rest h hi]
+
+/-! ## the public calls -/
+
+/-- the cells of the nodes reachable from `r` are all empty -/
+def ClearOn (s : Store) (r : Ref) (σ : Scr U) : Prop := ∀ j, reaches s r j = true → σ j = .empty
+
+theorem emptied_of_clearOn {s : Store} {r : Ref} {σ : Scr U} (h : ClearOn s r σ) :
+    (fun j => if reaches s r j then Cell.empty else σ j) = σ := by
+  funext j
+  cases hj : reaches s r j with
+  | true => simp [h j hj]
+  | false => simp
+
+/-- `clear_scratch` with its short-circuit: if below every *empty* reachable cell everything is
+empty already, exactly the reachable cells are emptied. -/
+theorem clearScratch_spec (s : Store) (r : Ref) (σ : Scr U)
+    (hcl : ∀ j, reaches s r j = true → (σ j).isSome = false →
+      ∀ k, reaches s (.reg j) k = true → (σ k).isSome = false) :
+    clearScratch s r σ = fun j => if reaches s r j then .empty else σ j := by
+  rw [clearScratch_eq_dfs s r σ 0, dfs_spec Cell.isSome .empty rfl s.length s r σ 0 (Nat.le_refl _) hcl]
+  funext j
+  cases hj : reaches s r j with
+  | false => simp [hj]
+  | true =>
+    cases hs : (σ j).isSome with
+    | true => simp [hj, hs]
+    | false => simp [hj, Cell.isSome_eq_false.1 hs]
+
+/-- key step of the clean-up: after a pass every reachable cell is occupied, so the
+short-circuit never cuts off a written cell -/
+theorem clearScratch_of_occupied (s : Store) (r : Ref) (σ : Scr U)
+    (h : ∀ j, reaches s r j = true → (σ j).isSome = true) :
+    clearScratch s r σ = fun j => if reaches s r j then .empty else σ j :=
+  clearScratch_spec s r σ (fun j hj hn => by rw [h j hj] at hn; cases hn)
+
+theorem clearScratch_clearOn (s : Store) (r : Ref) (σ : Scr U) (h : ClearOn s r σ) :
+    clearScratch s r σ = σ := by
+  rw [clearScratch_spec s r σ (fun j _ _ k hk => by
+    have hjk : reaches s r k = true := reaches_trans s r j k ‹_› hk
+    simp [h k hjk]), emptied_of_clearOn h]
+
+@[simp] theorem clearScratch_clear (s : Store) (r : Ref) : clearScratch s r (Scr.clear (U := U)) = Scr.clear :=
+  clearScratch_clearOn s r _ (fun _ _ => rfl)
+
+/-- `DDNNFPtr::fold`: the answer is the un-memoised fold of the tree, and afterwards exactly the
+reachable cells have been emptied. -/
+theorem fold_spec (t : Tag) (A : Alg (U t)) (s : Store) (r : Ref) (σ : Scr U) (h : PreOK t A s σ r) :
+    fold t A s r σ = (val A s r, fun j => if reaches s r j then .empty else σ j) := by
+  obtain ⟨hv, hp, hf⟩ := foldDag_spec t A s r σ h
+  simp only [fold, hv]
+  rw [clearScratch_of_occupied s r _ (fun j hj => (hp j hj).2)]
+  congr 1
+  funext j
+  cases hj : reaches s r j with
+  | true => simp
+  | false => simp [hf j hj]
+
+theorem fold_clearOn (t : Tag) (A : Alg (U t)) (s : Store) (r : Ref) (σ : Scr U) (h : ClearOn s r σ) :
+    fold t A s r σ = (val A s r, σ) := by
+  rw [fold_spec t A s r σ (preOK_of_noPair (fun j hj => by rw [h j hj]; rfl)), emptied_of_clearOn h]
+
+/-- `bdd_fold_h` is `bottomup_pass_h` for the algebra `(high_v, low_v, f)`: the two `match`es on
+the cached pair and the two ways of writing it back agree -/
+theorem bddFoldDag_eq (t : Tag) (f : Nat → U t → U t → U t) (lowV highV : U t) :
+    ∀ (s : Store) (r : Ref) (σ : Scr U),
+    bddFoldDag t f lowV highV s r σ = foldDag t (bddAlg f lowV highV) s r σ
+  | [], _, _ => rfl
+  | n :: rest, r, σ => by
+    simp only [bddFoldDag, foldDag]
+    cases r.idx? with
+    | none => rfl
+    | some i =>
+      simp only
+      split
+      · simp only [bddFoldDag_eq t f lowV highV rest]
+        generalize (σ i).asPair t = o
+        rcases o with _ | ⟨_ | a, _ | b⟩ <;> cases r.isNeg <;>
+          simp [probeBdd, probeFold, storeFold, bddAlg]
+      · exact bddFoldDag_eq t f lowV highV rest r σ
+
+theorem bddFold_spec (t : Tag) (f : Nat → U t → U t → U t) (lowV highV : U t) (s : Store) (r : Ref)
+    (σ : Scr U) (h : PreOK t (bddAlg f lowV highV) s σ r) :
+    bddFold t f lowV highV s r σ =
+      (val (bddAlg f lowV highV) s r, fun j => if reaches s r j then .empty else σ j) := by
+  have := fold_spec t (bddAlg f lowV highV) s r σ h
+  simpa only [bddFold, fold, bddFoldDag_eq] using this
+
+theorem bddFold_clearOn (t : Tag) (f : Nat → U t → U t → U t) (lowV highV : U t) (s : Store) (r : Ref)
+    (σ : Scr U) (h : ClearOn s r σ) :
+    bddFold t f lowV highV s r σ = (val (bddAlg f lowV highV) s r, σ) := by
+  rw [bddFold_spec t f lowV highV s r σ (preOK_of_noPair (fun j hj => by rw [h j hj]; rfl)),
+    emptied_of_clearOn h]
+
+/-- `marginal_map`/`meu`/`bb`: every pass sees empty cells and leaves empty cells -/
+theorem runOpt_clearOn (t : Tag) (s : Store) (r : Ref) : ∀ (p : OptProg (U t)) (σ : Scr U),
+    ClearOn s r σ → runOpt t s r p σ = (optSpec (unfold s r) p, σ)
+  | .done v, σ, _ => rfl
+  | .pass f lo hi k, σ, h => by
+    simp only [runOpt, bddFold_clearOn t f lo hi s r σ h, optSpec]
+    exact runOpt_clearOn t s r _ σ h
+
+/-- `count_nodes`: if no reachable cell holds a `usize`, the answer is the number of distinct
+reachable nodes and exactly the reachable cells have been emptied. -/
+theorem countNodes_spec (s : Store) (r : Ref) (σ : Scr U)
+    (h : ∀ j, reaches s r j = true → (σ j).asCount = none) :
+    countNodes s r σ = (reachCount s r, fun j => if reaches s r j then .empty else σ j) := by
+  have hd := dfs_spec (U := U) (fun c => c.asCount.isNone) (.count 0) rfl s.length s r σ 0 (Nat.le_refl _)
+    (fun j hj hn => by simp [h j hj] at hn)
+  simp only [countNodes, countH_eq_dfs, hd]
+  have hvis : ∀ j, (reaches s r j && (σ j).asCount.isNone) = reaches s r j := by
+    intro j
+    cases hj : reaches s r j with
+    | false => rfl
+    | true => simp [h j hj]
+  simp only [hvis]
+  rw [clearScratch_of_occupied s r _ (fun j hj => by simp [hj, Cell.isSome])]
+  refine Prod.ext ?_ ?_
+  · simp [reachCount, List.countP_eq_length_filter]
+  · funext j
+    cases hj : reaches s r j <;> simp [hj]
+
+theorem countNodes_clearOn (s : Store) (r : Ref) (σ : Scr U) (h : ClearOn s r σ) :
+    countNodes s r σ = (reachCount s r, σ) := by
+  rw [countNodes_spec s r σ (fun j hj => by rw [h j hj]; rfl), emptied_of_clearOn h]
+
+/-! ## query sequences -/
+
+/-- one public call from the all-clear state: the scratch-free answer, the scratch-free store,
+and the all-clear state again -/
+theorem runQuery_spec (st : St U) (r : Ref) (q : Query U) (h : st.scr = Scr.clear) :
+    runQuery st r q = ((specQuery st.store r q).1, ⟨(specQuery st.store r q).2, Scr.clear⟩) := by
+  obtain ⟨s, σ⟩ := st
+  simp only at h
+  subst h
+  have hc : ClearOn s r (Scr.clear (U := U)) := fun _ _ => rfl
+  cases q with
+  | fold t A => simp only [runQuery, specQuery, fold_clearOn t A s r _ hc, val]
+  | bddFold t f lo hi => simp only [runQuery, specQuery, bddFold_clearOn t f lo hi s r _ hc, val]
+  | optim t p => simp only [runQuery, specQuery, runOpt_clearOn t s r p _ hc]
+  | countNodes => simp only [runQuery, specQuery, countNodes_clearOn s r _ hc]
+  | condition lt x b => simp only [runQuery, specQuery, condition, clearScratch_clear]
+  | dnnfCondition x b => simp only [runQuery, specQuery, dnnfCondition, clearScratch_clear]
+  | smooth lvl varAt nv => simp only [runQuery, specQuery]
+
+theorem runQueries_spec : ∀ (qs : List (Ref × Query U)) (st : St U), st.scr = Scr.clear →
+    runQueries st qs = ((specQueries st.store qs).1, ⟨(specQueries st.store qs).2, Scr.clear⟩)
+  | [], st, h => by
+    obtain ⟨s, σ⟩ := st
+    simp only at h; subst h; rfl
+  | (r, q) :: qs, st, h => by
+    simp only [runQueries, specQueries, runQuery_spec st r q h]
+    rw [runQueries_spec qs ⟨(specQuery st.store r q).2, Scr.clear⟩ rfl]
+
 end cells
+
+/-! ## the store only grows, and growing it changes no old diagram -/
+
+/-- `s'` is `s` with nodes allocated on top -/
+def Extends (s' s : Store) : Prop := ∃ l, s' = l ++ s
+
+theorem Extends.refl (s : Store) : Extends s s := ⟨[], rfl⟩
+theorem Extends.trans {a b c : Store} (h1 : Extends a b) (h2 : Extends b c) : Extends a c := by
+  obtain ⟨l1, rfl⟩ := h1; obtain ⟨l2, rfl⟩ := h2; exact ⟨l1 ++ l2, by simp⟩
+theorem Extends.cons (n : Node) (s : Store) : Extends (n :: s) s := ⟨[n], rfl⟩
+theorem Extends.length_le {a b : Store} (h : Extends a b) : b.length ≤ a.length := by
+  obtain ⟨l, rfl⟩ := h; simp
+
+/-- the reference points into the store -/
+def Ref.ValidIn (r : Ref) (s : Store) : Prop := ∀ i, r.idx? = some i → i < s.length
+
+theorem unfold_append (s : Store) {r : Ref} (hr : r.ValidIn s) : ∀ l : Store, unfold (l ++ s) r = unfold s r
+  | [] => rfl
+  | m :: l => by
+    cases h : r.idx? with
+    | none => cases r <;> cases s <;> simp_all [unfold, Ref.idx?]
+    | some i =>
+      have := hr i h
+      rw [List.cons_append, unfold_cons_ne m (l ++ s) h (by simp; omega)]
+      exact unfold_append s hr l
+
+theorem reaches_append (s : Store) {r : Ref} (hr : r.ValidIn s) (j : Nat) :
+    ∀ l : Store, reaches (l ++ s) r j = reaches s r j
+  | [] => rfl
+  | m :: l => by
+    cases h : r.idx? with
+    | none => rw [reaches_none _ h, reaches_none _ h]
+    | some i =>
+      have := hr i h
+      rw [List.cons_append, reaches_cons_ne m (l ++ s) h (by simp; omega)]
+      exact reaches_append s hr j l
+
+theorem unfold_extends {s' s : Store} (h : Extends s' s) {r : Ref} (hr : r.ValidIn s) :
+    unfold s' r = unfold s r := by obtain ⟨l, rfl⟩ := h; exact unfold_append s hr l
+
+theorem countP_range_of_false (p : Nat → Bool) (n : Nat) (hp : ∀ j, n ≤ j → p j = false) :
+    ∀ N, n ≤ N → (List.range N).countP p = (List.range n).countP p := by
+  intro N hN
+  induction N with
+  | zero => have : n = 0 := by omega
+            subst this; rfl
+  | succ N ih =>
+    by_cases h : n = N + 1
+    · subst h; rfl
+    · rw [List.range_succ, List.countP_append, ih (by omega)]
+      simp [hp N (by omega)]
+
+theorem reachCount_extends {s' s : Store} (h : Extends s' s) {r : Ref} (hr : r.ValidIn s) :
+    reachCount s' r = reachCount s r := by
+  have hlen := h.length_le
+  obtain ⟨l, rfl⟩ := h
+  simp only [reachCount, ← List.countP_eq_length_filter]
+  have : reaches (l ++ s) r = reaches s r := funext fun j => reaches_append s hr j l
+  rw [this]
+  exact countP_range_of_false _ s.length (fun j hj => by
+    cases hh : reaches s r j with
+    | false => rfl
+    | true => have := reaches_lt _ _ _ hh; omega) _ hlen
+
+theorem insertRaw_extends (s : Store) (n : Node) : Extends (insertRaw s n).1 s := by
+  simp only [insertRaw]; split
+  · exact Extends.refl s
+  · exact Extends.cons n s
+
+theorem getOrInsert_extends (s : Store) (n : Node) : Extends (getOrInsert s n).1 s := by
+  simp only [getOrInsert]; split <;> exact insertRaw_extends _ _
+
+theorem getOrInsertDnnf_extends (s : Store) (n : Node) : Extends (getOrInsertDnnf s n).1 s := by
+  simp only [getOrInsertDnnf]; split <;> exact insertRaw_extends _ _
+
+theorem condAlloc_extends (lt : Nat → Nat → Bool) (x : Nat) (b : Bool) :
+    ∀ (view : Store) (r : Ref) (st : Store × CondCache), Extends (condAlloc lt x b view r st).2.1 st.1
+  | [], _, st => Extends.refl _
+  | n :: rest, r, st => by
+    simp only [condAlloc]
+    cases r.idx? with
+    | none => exact Extends.refl _
+    | some i =>
+      simp only
+      have h1 := condAlloc_extends lt x b rest n.lo st
+      have h2 := condAlloc_extends lt x b rest n.hi (condAlloc lt x b rest n.lo st).2
+      have h12 := h2.trans h1
+      split
+      · split
+        · exact Extends.refl _
+        · split
+          · exact Extends.refl _
+          · split
+            · exact Extends.refl _
+            · split
+              · exact h12
+              · simp only
+                split
+                · exact (getOrInsert_extends _ _).trans h12
+                · exact h12
+      · exact condAlloc_extends lt x b rest r st
+
+section
+variable {Tag : Type} [DecidableEq Tag] {U : Tag → Type}
+
+theorem dnnfCondH_extends (x : Nat) (b : Bool) (σ : Scr U) :
+    ∀ (view : Store) (r : Ref) (cur : Store), Extends (dnnfCondH x b σ view r cur).2 cur
+  | [], _, cur => Extends.refl _
+  | n :: rest, r, cur => by
+    simp only [dnnfCondH]
+    cases r.idx? with
+    | none => exact Extends.refl _
+    | some i =>
+      simp only
+      have h1 := dnnfCondH_extends x b σ rest n.lo cur
+      have h2 := dnnfCondH_extends x b σ rest n.hi (dnnfCondH x b σ rest n.lo cur).2
+      have h12 := h2.trans h1
+      split
+      · split
+        · exact Extends.refl _
+        · split
+          · exact Extends.refl _
+          · split
+            · exact h12
+            · split
+              · exact (getOrInsertDnnf_extends _ _).trans h12
+              · exact h12
+      · exact dnnfCondH_extends x b σ rest r cur
+end
+
+theorem smoothH_extends (lvl varAt : Nat → Nat) :
+    ∀ (k cur : Nat) (r : Ref) (s : Store), Extends (smoothH lvl varAt k cur r s).2 s
+  | 0, _, _, s => Extends.refl s
+  | k + 1, cur, r, s => by
+    simp only [smoothH]
+    have hd : Extends (getOrInsert (smoothH lvl varAt k (cur + 1) r s).2
+        ⟨varAt cur, (smoothH lvl varAt k (cur + 1) r s).1, (smoothH lvl varAt k (cur + 1) r s).1⟩).1 s :=
+      (getOrInsert_extends _ _).trans (smoothH_extends lvl varAt k (cur + 1) r s)
+    cases r.idx? with
+    | none => exact hd
+    | some i =>
+      simp only
+      cases s.get? i with
+      | none => exact Extends.refl s
+      | some n =>
+        simp only
+        split
+        · exact (getOrInsert_extends _ _).trans
+            ((smoothH_extends lvl varAt k (cur + 1) n.hi _).trans (smoothH_extends lvl varAt k (cur + 1) n.lo s))
+        · exact (getOrInsert_extends _ _).trans (smoothH_extends lvl varAt k (cur + 1) (.reg i) s)
+
+section
+variable {Tag : Type} [DecidableEq Tag] {U : Tag → Type}
+
+theorem specQuery_extends (s : Store) (r : Ref) (q : Query U) : Extends (specQuery s r q).2 s := by
+  cases q with
+  | fold t A => exact Extends.refl s
+  | bddFold t f lo hi => exact Extends.refl s
+  | optim t p => exact Extends.refl s
+  | countNodes => exact Extends.refl s
+  | condition lt x b => exact condAlloc_extends lt x b s r (s, [])
+  | dnnfCondition x b => exact dnnfCondH_extends x b _ s r s
+  | smooth lvl varAt nv => exact smoothH_extends lvl varAt nv 0 r s
+
+theorem specQueries_extends : ∀ (qs : List (Ref × Query U)) (s : Store), Extends (specQueries s qs).2 s
+  | [], s => Extends.refl s
+  | (r, q) :: qs, s => (specQueries_extends qs _).trans (specQuery_extends s r q)
+
+/-- the `k`-th answer of a sequence is the answer of the `k`-th query alone, on the store as it
+is at that point — an extension of the initial store -/
+theorem specQueries_get : ∀ (qs : List (Ref × Query U)) (s : Store) (k : Nat) (r : Ref) (q : Query U),
+    qs[k]? = some (r, q) →
+    ∃ s', Extends s' s ∧ (specQueries s qs).1[k]? = some (specQuery s' r q).1
+  | [], _, _, _, _, h => by simp at h
+  | (r0, q0) :: qs, s, 0, r, q, h => by
+    simp only [List.getElem?_cons_zero, Option.some.injEq, Prod.mk.injEq] at h
+    obtain ⟨rfl, rfl⟩ := h
+    exact ⟨s, Extends.refl s, by simp [specQueries]⟩
+  | (r0, q0) :: qs, s, k + 1, r, q, h => by
+    simp only [List.getElem?_cons_succ] at h
+    obtain ⟨s', he, hk⟩ := specQueries_get qs (specQuery s r0 q0).2 k r q h
+    exact ⟨s', he.trans (specQuery_extends s r0 q0), by simpa [specQueries] using hk⟩
+end
+
+section
+variable {Tag : Type} [DecidableEq Tag] {U : Tag → Type}
+
+/-- the calls that allocate nothing -/
+def Query.readOnly : Query U → Bool
+  | .fold .. | .bddFold .. | .optim .. | .countNodes => true
+  | _ => false
+
+theorem specQuery_readOnly (s : Store) (r : Ref) {q : Query U} (h : q.readOnly = true) :
+    (specQuery s r q).2 = s := by
+  cases q <;> simp_all [Query.readOnly, specQuery]
+
+/-- a sequence of read-only calls is a `map`: no call sees any other -/
+theorem specQueries_readOnly : ∀ (qs : List (Ref × Query U)) (s : Store),
+    (∀ p ∈ qs, p.2.readOnly = true) →
+    specQueries s qs = (qs.map fun p => (specQuery s p.1 p.2).1, s)
+  | [], _, _ => rfl
+  | (r, q) :: qs, s, h => by
+    have h1 := specQuery_readOnly s r (h (r, q) (List.mem_cons_self ..))
+    simp only [specQueries, h1, List.map_cons]
+    rw [specQueries_readOnly qs s (fun p hp => h p (List.mem_cons_of_mem _ hp))]
+end
 
 end Scratch
